@@ -35,6 +35,7 @@ func TestMain(m *testing.M) {
 		}
 	}
 	vh.Rule("also: 2..8 goroutines translating at the same time, every answer compared with the answer of the same call alone (separate race-detector run)")
+	vh.Rule("also: the error returned for an unsupported / unknown level is read (Error(), wrapped with %w) before the next questions are asked")
 	vh.Main(m, "C20")
 }
 
